@@ -106,7 +106,8 @@ def run_harness(scratch, h, timeout):
     return h
 
 
-def run_sets(pid, sets, tier, workdir, timeout=1500):
+def run_sets(pid, sets, tier, workdir, timeout=None):
+    timeout = timeout or (420 if tier == "quick" else 1800)
     res = {"harnesses": [], "undecided": [], "wall_s": 0, "cmd": ""}
     if not sets:
         return res
